@@ -457,6 +457,16 @@ class _Proxy:
 ORIG_ASYNC_CLIENT = _httpx.AsyncClient
 
 
+class _Paced(_httpx.AsyncByteStream):
+    def __init__(self, chunks, pace):
+        self.chunks, self.pace = chunks, pace
+
+    async def __aiter__(self):
+        for c in self.chunks:
+            await asyncio.sleep(self.pace)
+            yield c
+
+
 async def run_http(conv, wire, mode):
     import chuk_mcp.transports.http.transport as T
     from chuk_mcp.transports.http.http_client import http_client
@@ -474,6 +484,12 @@ async def run_http(conv, wire, mode):
         m = mode if mode != "mixed" else wire[k]["http_mixed"]
         if m == "json":
             return _httpx.Response(200, headers={"content-type": "application/json"}, content=wire[k]["http_json"])
+        if wire[k].get("http_pace"):
+            # an answer that takes LONGER than the transport's timeout although no single pause comes near it
+            body = wire[k]["http_sse"]
+            n = max(1, len(body) // 6)
+            return _httpx.Response(200, headers={"content-type": "text/event-stream"},
+                                   stream=_Paced([body[i:i + n] for i in range(0, len(body), n)], wire[k]["http_pace"]))
         return _httpx.Response(200, headers={"content-type": "text/event-stream"}, content=wire[k]["http_sse"])
 
     class Scripted(ORIG_ASYNC_CLIENT):
@@ -485,7 +501,7 @@ async def run_http(conv, wire, mode):
     T.httpx = _Proxy(Scripted)
     log = []
     try:
-        async with http_client(StreamableHTTPParameters(url="http://mcp.test/mcp", timeout=TIMEOUT)) as (r, w):
+        async with http_client(StreamableHTTPParameters(url="http://mcp.test/mcp", timeout=conv.get("http_timeout", TIMEOUT))) as (r, w):
             outcomes = await drive(r, w, conv, log)
     finally:
         T.httpx = saved
@@ -642,7 +658,8 @@ def wire_of(conv, index, res):
                      "stdio_chunks": cut(stdio, e["cuts"]),
                      "http_json": body, "http_sse": sse, "http_mixed": "json" if (k % 2 == 0) else "sse",
                      "legacy_chunks": cut(legacy, e["cuts"]) if legacy else [],
-                     "legacy_mode": e["legacy_mode"], "legacy_post_body": texts[-1].encode("utf-8"), "ack": e["ack"]})
+                     "legacy_mode": e["legacy_mode"], "legacy_post_body": texts[-1].encode("utf-8"), "ack": e["ack"],
+                     "http_pace": e.get("http_pace")})
     return wire
 
 
@@ -894,6 +911,14 @@ def explore(ctx, drv):
             st["enc"] = gen_enc(rng, 1)
             st["enc"]["legacy_mode"] = mode
             items.append(({"steps": [st]}, "wide-integer"))
+    # a long-running call: the Streamable HTTP answer streams three notifications and the result over MORE than the transport's
+    # timeout, every pause well below it (the timeout limits silence, not the length of an answer)
+    for kind in ("tools_call", "raw"):
+        st = gen_step(rng, kind)
+        st["notifs"] = [gen_notif(rng) for _ in range(3)]
+        st["enc"] = gen_enc(rng, 4)
+        st["enc"]["http_pace"] = 0.4                 # ~7 writes: about 3 s, the caller waits up to TIMEOUT (5 s)
+        items.append(({"steps": [st], "http_timeout": 1.5}, "answer-longer-than-the-transport-timeout"))
     # payloads that MENTION endpoint-like paths ("/mcp", "/messages/"), with the legacy server naming its events or not
     for untyped in (False, True):
         for mode in ("200", "202"):
